@@ -32,19 +32,19 @@ func init() {
 	l2 := func(rule string, assumptions ...string) meta {
 		return meta{rule: rule, assumptions: assumptions, real: realL2, stub: stubL2}
 	}
-	propMeta["C01"] = l2("each run = generated world + 8..60 operations over all watched kinds, scheduled by the tape; non-trivial = at least 2 reconciliations and 2 comparisons against a fresh controller; distinct = distinct trace signature",
+	propMeta["C01"] = l2("each run = generated world + 8..60 operations over all watched kinds (tcp-services ConfigMap in one run of five; Gateway API worlds with Service annotations in profile churn-gateway), scheduled by the tape; non-trivial = at least 2 reconciliations and 2 comparisons against a fresh controller; distinct = distinct trace signature",
 		"normal-form rules: file names inlined by content, fs prefix stripped, certificates by key-pair identity, server slot names/empty slots/order removed, path ids replaced by their map keys, auth-proxy names/ports renamed after their target")
 	propMeta["C05"] = l2("lag-free histories (every completed update is a sync point) over shard counts 0,1,3,8 biased to full syncs and deletions; non-trivial = at least 2 reconciliations compared with a fresh controller; distinct = distinct trace signature",
 		"comparison covers every *.cfg of the directory and every file they reference; unreferenced stale files on disk are not loaded by HAProxy and are ignored")
-	propMeta["C07"] = l2("every configuration written in a run without disk faults is analysed; non-trivial = at least 2 analysed configurations; distinct = distinct trace signature",
+	propMeta["C07"] = l2("stress, stress-static (strict-host on static worlds) and stress-gateway (Gateway API worlds) profiles: every configuration written in a run without disk faults is analysed; non-trivial = at least 2 analysed configurations; distinct = distinct trace signature",
 		"fatal = what HAProxy refuses at load (unknown backend/userlist/file, duplicated section/server/bind); dangling = map value or path id that resolves to nothing")
-	propMeta["C02"] = l2("endpoint/weight/certificate churn with runtime commands and socket faults; non-trivial = runtime commands were sent and the running state was compared with the files at least once; distinct = distinct trace signature")
-	propMeta["C11"] = l2("(a) histories of spurious re-notifications, (b) endpoint churn under dynamic scaling; non-trivial = at least 2 reconciliations after start-up; distinct = distinct trace signature")
+	propMeta["C02"] = l2("endpoint/weight/certificate churn (chain-only rotations included) with runtime commands and socket faults (refused commit ssl cert among them); an admin connection belongs to the worker process that accepted it; non-trivial = runtime commands were sent and the running state was compared with the files at least once; distinct = distinct trace signature")
+	propMeta["C11"] = l2("(a) histories of spurious re-notifications (with a tcp-services ConfigMap in one run of three, and with service backed external authentication in profile quiet-renotify-auth), (b) endpoint churn under dynamic scaling; non-trivial = at least 2 reconciliations after start-up; distinct = distinct trace signature")
 	propMeta["C13"] = meta{rule: "each run = one limiter (reload or reconcile), one interval setting and 3..28 notification arrivals placed relative to the interval (bursts, just before/after a scheduled run, during a run, idle gaps), with processing times; non-trivial = at least 3 arrivals; distinct = distinct trace signature",
 		assumptions: []string{"spacing is measured from the instant a run was due: a start held back by the single worker being busy with another run is not the limiter's doing", "reload retries after a failed reload bypass the limiter by design and are C12's subject"},
 		real:        []string{"pkg/utils/workqueue rate limiters and WorkQueue", "client-go rate-limiting/delaying queue", "controller-runtime controller worker loop (reconcile profile)"},
 		stub:        []string{"reload / reconcile callbacks: recorders with generated processing time", "wall clock: testing/synctest fake clock"}}
-	propMeta["C14"] = meta{rule: "each run = 4..18 informer events over 7 kinds delivered by one task per kind, 1..6 batch swaps by a reconciler task, interleaved at statement granularity by the tape; non-trivial = at least one accepted event and one swap; distinct = distinct trace signature",
+	propMeta["C14"] = meta{rule: "batches profile (L0, 4 of 5 runs): 4..18 informer events over 7 kinds (several events about one object, ConfigMap deletions) delivered by one task per kind, 1..6 batch swaps by a reconciler task, interleaved at statement granularity by the tape; handoff-l2 profile (L2, 1 of 5 runs): the real controller with class changes and lease changes, every change description the watchers hold when a batch is taken must reach ReconcileIngress; non-trivial = at least one accepted event and one swap (L0) or two reconciliations (L2); distinct = distinct trace signature",
 		assumptions: []string{"watchers.go is instrumented with a yield before every statement and a scheduler-aware mutex; exactly one task runs at a time", "porcupine decides linearizability of the put/take-all history against a multiset accumulator; Unknown (timeout) is harness trouble, never a verdict"},
 		real:        []string{"pkg/controller/reconciler watchers: handlers, predicates, compose/notify, getChangedObjects/initCh"},
 		stub:        []string{"validator (class membership read from the object)", "reconcile queue: recorder", "informers: scheduler-owned tasks"}}
@@ -58,15 +58,15 @@ func init() {
 	propMeta["C08"] = l2("class profile: worlds with class annotations, spec.ingressClassName, IngressClass objects (own and foreign controller, parameters), watch-ingress-without-class, controller class flags; the real IsValidIngress predicate is compared with a reference predicate for every ingress, and every host/certificate in the written configuration must be attributable to a selected ingress; non-trivial = at least 2 reconciliations and 2 comparisons; distinct = distinct trace signature")
 	propMeta["C15"] = l2("tls profile: for every declared host and a few undeclared ones the certificate HAProxy would present for that SNI (crt-list lookup, exact then wildcard then default) is compared with the secret the oldest declaring ingress names, on files and on the running state after set/commit ssl cert; non-trivial = at least 2 reconciliations and 2 comparisons; distinct = distinct trace signature",
 		"certificates are compared by key-pair identity, never by file name")
-	propMeta["C18"] = l2("auth profile: auth-url (well-formed, malformed, dangling, svc://), oauth, both placements, auth-proxy ranges of 1, 2 and 5 ports or default, external-has-lua on/off; every request that the reference router gives to a rule of an ingress declaring authentication must be denied or pass lua.auth-intercept, and an intercept must reach the servers the declared auth-url resolves to; non-trivial = a protected request was judged after at least 2 reconciliations; distinct = distinct trace signature",
+	propMeta["C18"] = l2("auth, auth-svc, auth-svcann (declarations on Services) and auth-oauth (published oauth2 proxy that moves) profiles: auth-url (well-formed, malformed, dangling, svc://), oauth, both placements, auth-proxy ranges of 1, 2 and 5 ports or default, external-has-lua on/off; every request that the reference router gives to a rule of an ingress declaring authentication must be denied or pass lua.auth-intercept, and an intercept must reach the servers the declared auth-url resolves to; non-trivial = a protected request was judged after at least 2 reconciliations; distinct = distinct trace signature",
 		"requests that reach a backend other than the one their declaration names are routing matters (C03) and not judged here",
 		"the authentication target is not checked for requests that fell to the default host (they are resolved again inside the backend and may match another ingress' host rule)")
 	propMeta["C06"] = l2("order and order-history profiles; every sync point runs one canonical and four order-permuted fresh pipelines on the same stores; non-trivial = at least one permuted pipeline really iterated some map in another order; distinct = distinct trace signature",
 		"normal-form rules as for C01; sequence-numbered names (_auth_backendNNN, auth proxy ports, path ids, server slots) are replaced by what they stand for")
-	propMeta["C09"] = l2("xns profile: ingress and service annotations and spec.tls secretNames with ns/name and secret://ns/name references to both namespaces, the four cross-namespace keys drawn among allow, deny, invalid and absent, changed during the history, --allow-cross-namespace on in 1 of 8 runs (then nothing is asserted); non-trivial = a state with at least one denied cross-namespace reference was judged after an incremental update; distinct = distinct trace signature",
+	propMeta["C09"] = l2("xns, xns-projection and xns-gateway (Gateway API routes over annotated Services) profiles: ingress and service annotations and spec.tls secretNames with ns/name and secret://ns/name references to both namespaces, the four cross-namespace keys drawn among allow, deny, invalid and absent, changed during the history, --allow-cross-namespace on in 1 of 8 runs (then nothing is asserted); non-trivial = a state with at least one denied cross-namespace reference was judged after an incremental update; distinct = distinct trace signature",
 		"a class is closed unless its key reads allow (case-insensitive), as documented; nothing is asserted when the command-line override is on",
 		"the long-running controller is only charged when its files equal those of a pipeline with every permission open (other differences are C01's subject)")
-	propMeta["C10"] = l2("gateway profile: Gateway API v1 objects only (no Ingress); non-trivial = at least one route was admitted and the state was judged after an incremental update; distinct = distinct trace signature",
+	propMeta["C10"] = l2("gateway profile: Gateway API v1 objects (classes of this controller, of another one and of a sibling instance; listeners of both protocols; backendRefs into other namespaces) and, in half of the runs, a companion Ingress (HTTP or TCP service) on hosts and ports the routes use; non-trivial = at least one route was admitted and the state was judged after an incremental update; distinct = distinct trace signature",
 		"allowedRoutes and namespaces.from are never nil (the CRD defaults fill them); metadata.generation is bumped on every spec change as the API server does",
 		"listeners without TLS; HTTP listeners use the global bind port as documented")
 	propMeta["C17"] = meta{rule: "acme profile: each run = a world of ingresses (cert-signer / tls-acme), secrets in chosen states and 4..40 operations (ingress and secret changes, external checks, lease changes, clock advances of minutes to days), then faults stop, a day and the longest back-off pass; non-trivial = a certificate was wanted, the instance asked the queue for it and at least 2 reconciliations ran; distinct = distinct trace signature",
